@@ -174,6 +174,14 @@ func init() {
 		}
 		return uint64(in.ghost.cancelChan.Polls)
 	}
+	intrinsics[H("vPin")] = func(in *Interp, fr *frame, args []Value) Value {
+		if in.X.Fix == nil {
+			in.X.Fix = map[string]uint64{}
+		}
+		in.X.Fix[sanitize(args[0].(string))] = args[1].(uint64)
+		in.X.PinRest = true
+		return nil
+	}
 	intrinsics[H("vRegister")] = func(in *Interp, fr *frame, args []Value) Value { return nil }
 	intrinsics[H("vRunSpawned")] = func(in *Interp, fr *frame, args []Value) Value {
 		in.runSpawned()
